@@ -532,10 +532,14 @@ impl Property for C01 {
         }
         if rng.chance(6) {
             // values that are not scalar values, astral characters
-            let v = *rng.pick(&[0xD800usize, 0xDFFE, 0x110000, 0x1F600, 0x10FFFF, 0xFFFF, 0x10000]);
+            let v = *rng.pick(&[0xD800usize, 0xDFFE, 0x110000, 0x1F600, 0x10FFFF, 0xFFFF, 0x10000, 0xD7FF, 0xE000, 0xDFFF, 0x10FFFE, 0x7F, 0x80, 0x7FF, 0x800]);
             let (h, d) = gen::factor_pair(v);
             let pos = rng.usize(0, sc.cmds.len());
             sc.cmds.insert(pos, crate::reflang::Cmd::new(0, h, d, crate::reflang::RArea::Nil));
+            if rng.chance(50) {
+                // and write it while stack 3 is selected (most programs are still there at this point)
+                sc.cmds.insert(pos + 1, crate::reflang::Cmd::new(1, 1, rng.usize(1, 2), crate::reflang::RArea::Nil));
+            }
         }
         if rng.chance(15) {
             gen::arith_template(rng, &mut sc.cmds);
